@@ -69,6 +69,11 @@ CHECKS = {
         text="Model/Security.lean: inheritance of requirements (NoSecurity, method, service, API), the generated endpoint's chain (requirements tried in order while the previous one failed; inside a requirement callbacks run until one refuses) with the exact callback order, and the credential a callback receives (prefix before the first space removed for header credentials). Props/C06.lean: the method runs iff unsecured or some requirement has all schemes accept; a refusal is the error of a refusing callback of the last requirement; only schemes of the effective requirements are consulted; inheritance laws; bearer prefix removal. Tie T5: every accept/reject vector x credential strings on generated servers with a recording Auther, callback sequence, credentials, scheme and required scopes, method-ran flag and the caller's error compared with drv_sec.",
         note="The chain and inheritance models are hand-written from the template and expr/method.go; agreement with generated code is by execution per design. Usernames without ':' and printable-ASCII credentials only; methods with two credentials in one header are checked for the gate only; OAuth2 flows and gRPC metadata credentials are not exercised.",
         ref="DESIGN.md §3 C06", technique="Lean 4 proof over the requirement-chain model + differential execution of generated secured endpoints against the Lean driver"),
+    "C07": dict(
+        category="proof",
+        text="Model/OpenAPI.lean gives the meaning of 'the document lists exactly the mounted operations': the rewriting of mounted route patterns into OpenAPI path templates (catch-alls become ordinary variables, literals untouched, variable order kept), the set comparison of documented and mounted (method, template) pairs and the consistency of declared path parameters with the template's variables; Props/C07.lean proves that the comparison reports nothing iff the sets are equal and that everything it reports is a genuine difference. Tie: per design goa generates the four documents and the server; the generated Mount functions run against a recording muxer (what the server really mounts), the documents are loaded and validated by an independent implementation (kin-openapi; v2 also through its conversion to v3; JSON and YAML renderings compared as trees), and parameters (name, location, required), request body presence, response codes and security requirements are compared with what the design maps. drv_oas (compiled from the Lean model) decides the operation-set and path-parameter comparisons.",
+        note="Validity of the documents against the OpenAPI specifications is decided by a library (kin-openapi + the extra 2.0 rules of harness/cmd/rtopenapi), not proved. The Lean model covers the operation-set/template/path-parameter part; expected parameters, bodies, codes and security are derived from the design IR by vlib/c07.py. File servers, multiple routes per endpoint and openapi:* metadata are not generated yet.",
+        ref="DESIGN.md §3 C07", technique="Lean 4 proof of the operation-set/template comparison + differential check of generated documents (independent OpenAPI loader/validator) against the routes the generated server mounts"),
     "C03": dict(
         category="proof",
         text="Same exchanges as C02, response direction: the result the stub service returns must equal what the generated client hands to the caller, with the designed status code and exactly one WriteHeader; Lean part shared with C02 (string transport of header values, partition).",
